@@ -349,6 +349,8 @@ class Check:
                     print(line, flush=True)
                     self.cov["known_findings_seen"].append(ident)
                 return False
+        if ident is not None and any(v.get("ident") == ident for v in self.violations):
+            return True      # same identity already reported in this run
         self.violations.append({"what": what, "replay": replay, "ident": ident})
         print("VIOLATION property=%s replay=%s" % (self.pid, replay), flush=True)
         log("   -> " + what)
